@@ -171,6 +171,8 @@ class QuickSampler:
         The probability distribution as a continuous distribution. This can be
         used for random sampling from the distribution.
         """
+        if self._check_parameter_updates():
+            self.probability_distribution  # noqa: B018
         return self.__continuous_distribution
 
     def sample(self) -> State:
